@@ -185,7 +185,7 @@ fn run_case(
     }
     let got = match early_got {
         Some(g) => Ok(g),
-        None => rrx.recv_timeout(std::time::Duration::from_secs(if send_ok { 20 } else { 5 })),
+        None => rrx.recv_timeout(std::time::Duration::from_secs(if send_ok { 8 } else { 4 })),
     };
     let mut rx_back = None;
     match got {
